@@ -230,3 +230,78 @@ def do_composite_search(req):
 
 
 HANDLERS.update({'composite_case': do_composite_case, 'composite_search': do_composite_search})
+
+
+# ------------------------------------------------------------------------------ C12 / C13 replays
+def _mk_kevent(eventid, tid, qual=0, values=(0, 0, 0, 0), ts=0):
+    import struct
+    from pykdebugparser.kevent import from_kd_buf
+    return from_kd_buf(struct.pack('<Q32sQIIQ', ts, struct.pack('<QQQQ', *values), tid, (eventid & 0xfffffffc) | qual, 0, 0))
+
+
+def _mk_log(tid, process, pid):
+    from pykdebugparser.os_log_event import OsLogEvent
+    from datetime import datetime, timezone
+    return OsLogEvent('msg', 't', 's', tid, 0, 0, b'', b'', datetime.fromtimestamp(0, tz=timezone.utc), {}, process=process,
+                      process_identifier=pid)
+
+
+def spec_keep(method, cfg, x):
+    from pykdebugparser.os_log_event import OsLogEvent
+    is_log = isinstance(x, OsLogEvent)
+    if method == 'kevents':
+        if is_log:
+            return False
+        if cfg.get('filter_tid') is not None and x.tid != cfg['filter_tid']:
+            return False
+        fc, fsc = cfg.get('filter_class') or [], cfg.get('filter_subclass') or []
+        if not fc and not fsc:
+            return True
+        return (x.eventid >> 24) in fc or (x.eventid >> 16) in fsc
+    if not is_log:
+        return False
+    if cfg.get('filter_tid') is not None and x.thread_identifier != cfg['filter_tid']:
+        return False
+    fp = cfg.get('filter_process')
+    return fp is None or fp == x.process or fp == str(x.process_identifier)
+
+
+def do_filters(req):
+    import pykdebugparser.pykdebugparser as M
+    cfg = req['config']
+    e = req['element']
+    if e['kind'] == 'kevent':
+        x = _mk_kevent(e['eventid'], e['tid'], e.get('qual', 0))
+        other = _mk_log(e['tid'], 'p', 1)
+    else:
+        x = _mk_log(e['thread_identifier'], e['process'], e['process_identifier'])
+        other = _mk_kevent(0x40c0000, e['thread_identifier'])
+    stream = [x, other, x]
+
+    class FakeParser:
+        def __init__(self, *a, **k):
+            pass
+
+        def parse(self, reader):
+            return iter(list(stream))
+    M.KdBufParser = FakeParser
+    p = M.PyKdebugParser()
+    p.filter_tid = cfg.get('filter_tid')
+    p.filter_process = cfg.get('filter_process')
+    p.filter_class = list(cfg.get('filter_class') or [])
+    p.filter_subclass = list(cfg.get('filter_subclass') or [])
+    out = {'raised': None}
+    try:
+        got = list(getattr(p, req['method'])(None))
+    except BaseException as ex:  # noqa
+        out['raised'] = '%s: %s' % (type(ex).__name__, ex)
+        out['violates'] = True
+        return out
+    exp = [y for y in stream if spec_keep(req['method'], cfg, y)]
+    out['got'] = [repr(y)[:80] for y in got]
+    out['expected'] = [repr(y)[:80] for y in exp]
+    out['violates'] = [id(y) for y in got] != [id(y) for y in exp]
+    return out
+
+
+HANDLERS.update({'filters': do_filters})
